@@ -219,6 +219,11 @@ class SymStr(str, SymStrBase):
         if self._has_tok() or any(isinstance(c, T) for c in oc):
             if len(oc) == len(self.cells) and all(a is b or (isinstance(a, str) and a == b) for a, b in zip(self.cells, oc)):
                 return True
+            # a string that consists of one numeric token can only equal text made of number characters
+            if len(self.cells) == 1 and all(isinstance(c, str) for c in oc) and (not oc or any(c not in "0123456789.+-eEinfaINFA" for c in oc)):
+                return False
+            if len(oc) == 1 and isinstance(oc[0], T) and all(isinstance(c, str) for c in self.cells) and (not self.cells or any(c not in "0123456789.+-eEinfaINFA" for c in self.cells)):
+                return False
             raise Inconclusive("equality on opaque numeric token")
         if len(oc) != len(self.cells):
             return False
